@@ -43,6 +43,7 @@ pub enum BlindSignature<S: Scheme> {
     /// CL03 signature variant
     CL03(CL03BlindSignature),
     /// Unreachable variant to satisfy the type system
+    #[serde(skip)]
     _Unreachable(std::marker::PhantomData<S>),
 }
 
@@ -56,6 +57,7 @@ pub enum Commitment<S: Scheme> {
     /// CL03 commitment variant
     CL03(CL03Commitment),
     /// Unreachable variant to satisfy the type system
+    #[serde(skip)]
     _Unreachable(std::marker::PhantomData<S>),
 }
 
@@ -69,6 +71,7 @@ pub enum PoKSignature<S: Scheme> {
     /// CL03 proof of knowledge signature variant
     CL03(CL03PoKSignature),
     /// Unreachable variant to satisfy the type system
+    #[serde(skip)]
     _Unreachable(PhantomData<S>),
 }
 
@@ -82,6 +85,7 @@ pub enum ZKPoK<S: Scheme> {
     #[cfg(feature = "cl03")]
     CL03(CL03ZKPoK),
     /// Unreachable variant to satisfy the type system
+    #[serde(skip)]
     _Unreachable(PhantomData<S>),
 }
 
@@ -95,5 +99,6 @@ pub enum Signature<S: Scheme> {
     /// CL03 signature variant
     CL03(CL03Signature),
     /// Unreachable variant to satisfy the type system
+    #[serde(skip)]
     _Unreachable(PhantomData<S>),
 }
